@@ -8,6 +8,9 @@ structure Fits (t : Tuple) : Prop where
   files : ∀ f ∈ t.files, f.ns.length < 4294967296 ∧ f.path.length < 4294967296 ∧
             f.pBegin < 4294967296 ∧ f.pEnd < 4294967296
   items : ∀ x ∈ items t, x.length < 4294967296
+  legal : t.legal.length < 4294967296
+  smMode : ∀ m, t.smMode = some m → m < 4294967296
+  legalMode : ∀ m, t.legalMode = some m → m < 4294967296
 
 /-- `{`: the first byte of every source map esbuild generates -/
 def lbrace : Nat := 123
@@ -48,115 +51,112 @@ theorem encFile_append_inj (f g : FileEntry) (r s : List Nat)
 
 /-- a file entry followed by anything never looks like an item list whose first item is not the
 entry's namespace -/
-theorem encFile_vs_items (g : FileEntry) (s : List Nat) (I : List (List Nat))
+theorem encFile_vs_items (g : FileEntry) (r s : List Nat) (I : List (List Nat))
     (hg : g.ns.length < 4294967296) (hI : ∀ x ∈ I, x.length < 4294967296)
     (hne : I ≠ []) (hfresh : I.head? ≠ some g.ns) :
-    Pieces.preimage I ≠ encFile g ++ s := by
+    Pieces.preimage I ++ r ≠ encFile g ++ s := by
   intro h
   cases I with
   | nil => exact hne rfl
   | cons i I' =>
     rw [Pieces.preimage_cons] at h
-    have h' : lenPrefixed i ++ Pieces.preimage I' = lenPrefixed g.ns ++ (lenPrefixed g.path ++ (le32 g.pBegin ++ le32 g.pEnd) ++ s) := by
+    have h' : lenPrefixed i ++ (Pieces.preimage I' ++ r)
+        = lenPrefixed g.ns ++ (lenPrefixed g.path ++ (le32 g.pBegin ++ le32 g.pEnd) ++ s) := by
       simp only [encFile, lenPrefixed, List.append_assoc] at h ⊢
       exact h
     have := (lenPrefixed_append_inj _ _ _ _ (hI i (by simp)) hg h').1
     exact hfresh (by simp [this])
 
-/-- step 1: the file entries and the item list can be read back -/
-theorem files_items_inj (F : List FileEntry) : ∀ (G : List FileEntry) (I J : List (List Nat)),
+/-- step 1: the file entries can be read back; what follows them is left over -/
+theorem files_inj (F : List FileEntry) : ∀ (G : List FileEntry) (I J : List (List Nat)) (r s : List Nat),
     (∀ f ∈ F, f.ns.length < 4294967296 ∧ f.path.length < 4294967296 ∧ f.pBegin < 4294967296 ∧ f.pEnd < 4294967296) →
     (∀ f ∈ G, f.ns.length < 4294967296 ∧ f.path.length < 4294967296 ∧ f.pBegin < 4294967296 ∧ f.pEnd < 4294967296) →
     (∀ x ∈ I, x.length < 4294967296) → (∀ x ∈ J, x.length < 4294967296) →
     I ≠ [] → J ≠ [] →
     (∀ f ∈ G, I.head? ≠ some f.ns) → (∀ f ∈ F, J.head? ≠ some f.ns) →
-    F.flatMap encFile ++ Pieces.preimage I = G.flatMap encFile ++ Pieces.preimage J →
-    F = G ∧ I = J := by
+    F.flatMap encFile ++ (Pieces.preimage I ++ r) = G.flatMap encFile ++ (Pieces.preimage J ++ s) →
+    F = G ∧ Pieces.preimage I ++ r = Pieces.preimage J ++ s := by
   induction F with
   | nil =>
-    intro G I J _ hG hI hJ hIne _ hfG _ h
+    intro G I J r s _ hG hI hJ hIne _ hfG _ h
     cases G with
-    | nil => exact ⟨rfl, preimage_injective I J hI hJ (by simpa using h)⟩
+    | nil => exact ⟨rfl, by simpa using h⟩
     | cons g G' =>
       exfalso
       simp only [List.flatMap_nil, List.nil_append, List.flatMap_cons, List.append_assoc] at h
-      exact encFile_vs_items g _ I (hG g (by simp)).1 hI hIne (hfG g (by simp)) h
+      exact encFile_vs_items g r _ I (hG g (by simp)).1 hI hIne (hfG g (by simp)) h
   | cons f F' ih =>
-    intro G I J hF hG hI hJ hIne hJne hfG hfF h
+    intro G I J r s hF hG hI hJ hIne hJne hfG hfF h
     cases G with
     | nil =>
       exfalso
       simp only [List.flatMap_nil, List.nil_append, List.flatMap_cons, List.append_assoc] at h
-      exact encFile_vs_items f _ J (hF f (by simp)).1 hJ hJne (hfF f (by simp)) h.symm
+      exact encFile_vs_items f s _ J (hF f (by simp)).1 hJ hJne (hfF f (by simp)) h.symm
     | cons g G' =>
       simp only [List.flatMap_cons, List.append_assoc] at h
       obtain ⟨hfg, hrest⟩ := encFile_append_inj f g _ _ (hF f (by simp)) (hG g (by simp)) h
-      obtain ⟨h1, h2⟩ := ih G' I J (fun x hx => hF x (by simp [hx])) (fun x hx => hG x (by simp [hx]))
+      obtain ⟨h1, h2⟩ := ih G' I J r s (fun x hx => hF x (by simp [hx])) (fun x hx => hG x (by simp [hx]))
         hI hJ hIne hJne (fun x hx => hfG x (by simp [hx])) (fun x hx => hfF x (by simp [hx])) hrest
       exact ⟨by rw [hfg, h1], h2⟩
 
-theorem optItem_inj (p q : List Nat) (r s : List (List Nat)) (hpq : p = [] ↔ q = [])
-    (h : optItem p ++ r = optItem q ++ s) : p = q ∧ r = s := by
-  unfold optItem at h
+/-- item lists of the same length can be peeled off the front -/
+theorem preimage_peel (X : List (List Nat)) : ∀ (Y : List (List Nat)) (r s : List Nat),
+    X.length = Y.length → (∀ x ∈ X, x.length < 4294967296) → (∀ x ∈ Y, x.length < 4294967296) →
+    Pieces.preimage X ++ r = Pieces.preimage Y ++ s → X = Y ∧ r = s := by
+  induction X with
+  | nil =>
+    intro Y r s hl _ _ h
+    have : Y = [] := List.eq_nil_of_length_eq_zero (by simpa using hl.symm)
+    subst this
+    exact ⟨rfl, by simpa [Pieces.preimage] using h⟩
+  | cons x X ih =>
+    intro Y r s hl hX hY h
+    cases Y with
+    | nil => simp at hl
+    | cons y Y =>
+      rw [Pieces.preimage_cons, Pieces.preimage_cons] at h
+      simp only [List.append_assoc] at h
+      have h' : lenPrefixed x ++ (Pieces.preimage X ++ r) = lenPrefixed y ++ (Pieces.preimage Y ++ s) := by
+        simpa [lenPrefixed] using h
+      obtain ⟨hxy, hrest⟩ := lenPrefixed_append_inj _ _ _ _ (hX x (by simp)) (hY y (by simp)) h'
+      obtain ⟨h1, h2⟩ := ih Y r s (by simpa using hl) (fun z hz => hX z (by simp [hz]))
+        (fun z hz => hY z (by simp [hz])) hrest
+      exact ⟨by rw [hxy, h1], h2⟩
+
+/-- two item lists followed by arbitrary bytes: one list is a prefix of the other -/
+theorem preimage_prefix (X : List (List Nat)) : ∀ (Y : List (List Nat)) (r s : List Nat),
+    (∀ x ∈ X, x.length < 4294967296) → (∀ x ∈ Y, x.length < 4294967296) →
+    Pieces.preimage X ++ r = Pieces.preimage Y ++ s →
+    (∃ K, X = Y ++ K ∧ Pieces.preimage K ++ r = s) ∨ (∃ K, Y = X ++ K ∧ r = Pieces.preimage K ++ s) := by
+  induction X with
+  | nil =>
+    intro Y r s _ _ h
+    exact Or.inr ⟨Y, by simp, by simpa [Pieces.preimage] using h⟩
+  | cons x X ih =>
+    intro Y r s hX hY h
+    cases Y with
+    | nil => exact Or.inl ⟨x :: X, by simp, by simpa [Pieces.preimage] using h⟩
+    | cons y Y =>
+      rw [Pieces.preimage_cons, Pieces.preimage_cons] at h
+      simp only [List.append_assoc] at h
+      have h' : lenPrefixed x ++ (Pieces.preimage X ++ r) = lenPrefixed y ++ (Pieces.preimage Y ++ s) := by
+        simpa [lenPrefixed] using h
+      obtain ⟨hxy, hrest⟩ := lenPrefixed_append_inj _ _ _ _ (hX x (by simp)) (hY y (by simp)) h'
+      rcases ih Y r s (fun z hz => hX z (by simp [hz])) (fun z hz => hY z (by simp [hz])) hrest with
+        ⟨K, hK, hr⟩ | ⟨K, hK, hr⟩
+      · exact Or.inl ⟨K, by rw [hxy, hK]; rfl, hr⟩
+      · exact Or.inr ⟨K, by rw [hxy, hK]; rfl, hr⟩
+
+theorem optItem_length (p q : List Nat) (hpq : p = [] ↔ q = []) : (optItem p).length = (optItem q).length := by
+  unfold optItem
   by_cases hp : p = []
-  · have hq := hpq.1 hp
-    simp only [hp, hq, if_true, List.nil_append] at h
-    exact ⟨by rw [hp, hq], h⟩
-  · have hq : q ≠ [] := fun hq => hp (hpq.2 hq)
-    simp only [hp, hq, if_false, List.cons_append, List.nil_append, List.cons.injEq] at h
-    exact h
+  · simp [hp, hpq.1 hp]
+  · have : q ≠ [] := fun hq => hp (hpq.2 hq)
+    simp [hp, this]
 
-/-- the mixed case of `tail_inj`: one side wrote legal comments, the other did not -/
-theorem tail_mixed_absurd (D D' : List (List Nat)) (sm sm' : SMPieces) (L' : List Nat)
-    (hs : SMShape sm) (hs' : SMShape sm') (hL' : L' ≠ [])
-    (h : D ++ [sm.pfx, sm.mappings, sm.sfx] = D' ++ [sm'.pfx, sm'.mappings, sm'.sfx, L']) : False := by
-  have h2 : D ++ [sm.pfx, sm.mappings, sm.sfx] = (D' ++ [sm'.pfx]) ++ [sm'.mappings, sm'.sfx, L'] := by
-    rw [h]; simp
-  have h3 := (List.append_inj' h2 (by simp)).2
-  simp only [List.cons.injEq, and_true] at h3
-  obtain ⟨ha, _, hc⟩ := h3
-  -- sm.sfx = L' ≠ [] so sm is a real source map; its prefix starts with `{`; that prefix is sm'.mappings
-  rcases hs with ⟨_, _, h0⟩ | ⟨hp, _⟩
-  · exact hL' (by rw [← hc, h0])
-  · rcases hs' with ⟨_, hm0, _⟩ | ⟨_, hm⟩
-    · rw [ha, hm0] at hp; simp at hp
-    · exact hm (by rw [← ha]; exact hp)
-
-/-- step 2b: the pieces' data, the source-map pieces and the legal comments can be read back from the
-END of the item list, although neither the number of pieces nor the presence of the comments is written -/
-theorem tail_inj (D D' : List (List Nat)) (sm sm' : SMPieces) (L L' : List Nat)
-    (hs : SMShape sm) (hs' : SMShape sm')
-    (h : D ++ ([sm.pfx, sm.mappings, sm.sfx] ++ optItem L) = D' ++ ([sm'.pfx, sm'.mappings, sm'.sfx] ++ optItem L')) :
-    D = D' ∧ sm = sm' ∧ L = L' := by
+theorem optItem_eq (p q : List Nat) (h : optItem p = optItem q) : p = q := by
   unfold optItem at h
-  by_cases hL : L = [] <;> by_cases hL' : L' = []
-  · simp only [hL, hL', if_true, List.append_nil] at h
-    obtain ⟨h1, h2⟩ := List.append_inj' h (by simp)
-    simp only [List.cons.injEq, and_true] at h2
-    refine ⟨h1, ?_, by rw [hL, hL']⟩
-    cases sm; cases sm'; simp_all
-  · exfalso
-    simp only [hL, hL', if_true, if_false, List.append_nil, List.cons_append, List.nil_append] at h
-    exact tail_mixed_absurd D D' sm sm' L' hs hs' hL' h
-  · exfalso
-    simp only [hL, hL', if_true, if_false, List.append_nil, List.cons_append, List.nil_append] at h
-    exact tail_mixed_absurd D' D sm' sm L hs' hs hL h.symm
-  · simp only [hL, hL', if_false, List.cons_append, List.nil_append] at h
-    obtain ⟨h1, h2⟩ := List.append_inj' h (by simp)
-    simp only [List.cons.injEq, and_true] at h2
-    refine ⟨h1, ?_, h2.2.2.2⟩
-    cases sm; cases sm'; simp_all
-
-/-- step 2: the item list determines the fields when the number of template parts and the presence of
-the public path are known -/
-theorem items_inj (a b : Tuple) (hT : a.tmpl.length = b.tmpl.length) (hP : a.pub = [] ↔ b.pub = [])
-    (hs : SMShape a.sm) (hs' : SMShape b.sm) (h : items a = items b) :
-    a.tmpl = b.tmpl ∧ a.pub = b.pub ∧ a.data = b.data ∧ a.sm = b.sm ∧ a.legal = b.legal := by
-  unfold items at h
-  obtain ⟨h1, h⟩ := List.append_inj h hT
-  obtain ⟨h2, h⟩ := optItem_inj _ _ _ _ hP h
-  obtain ⟨h3, h4, h5⟩ := tail_inj _ _ _ _ _ _ hs hs' h
-  exact ⟨h1, h2, h3, h4, h5⟩
+  by_cases hp : p = [] <;> by_cases hq : q = [] <;> simp_all
 
 theorem items_ne_nil (t : Tuple) : items t ≠ [] := by
   unfold items
